@@ -30,6 +30,8 @@ type loaderCfg struct {
 	CapUS    int     `json:"cap"` // microseconds
 	Dir      string  `json:"dir"`
 	Tr       int     `json:"tr"`
+	Heal     int     `json:"heal"`  // k >= 1: the failing file is repaired during the wait after attempt k
+	Reuse    bool    `json:"reuse"` // load through the recovery object of the previous scenario (same retry configuration)
 }
 
 const mainYAML = `- command: "ls -la"
@@ -93,6 +95,9 @@ func loaderRun(args []string) int {
 		c.Tr = n
 		c.Dir = filepath.Join(base, fmt.Sprintf("s%d", n))
 		os.Mkdir(c.Dir, 0o755)
+		if c.Heal > 0 {
+			os.Chmod(c.Dir, 0o777) // the unprivileged child repairs a file here
+		}
 		materialise(filepath.Join(c.Dir, "commands.yml"), c.Main, mainYAML)
 		materialise(filepath.Join(c.Dir, "personal.yml"), c.Personal, personalYAML)
 		if c.Backup != "" {
@@ -150,6 +155,7 @@ type loaderEv struct {
 	SearchOK bool   `json:"searchok"`
 	Tr       int    `json:"tr"`
 	Note     string `json:"note,omitempty"`
+	Heal     int    `json:"heal"`
 }
 
 func loaderChild(args []string) int {
@@ -167,18 +173,33 @@ func loaderChild(args []string) int {
 	os.Stdout = devnull
 	sc := bufio.NewScanner(os.Stdin)
 	sc.Buffer(make([]byte, 1<<20), 1<<24)
+	var dr *recovery.DatabaseRecovery
+	var lastRC recovery.RetryConfig
 	for sc.Scan() {
 		var c loaderCfg
 		if err := json.Unmarshal(sc.Bytes(), &c); err != nil {
 			continue
 		}
 		tr := c.Tr
-		emit(&loaderEv{Op: "start", Main: c.Main, Personal: c.Personal, MaxAtt: c.MaxAtt, Cap: c.CapUS, Tr: tr})
+		emit(&loaderEv{Op: "start", Main: c.Main, Personal: c.Personal, MaxAtt: c.MaxAtt, Cap: c.CapUS, Tr: tr, Heal: c.Heal})
+		effMain, effPers := c.Main, c.Personal
+		loads := func(f string) bool { return f == "ok" || f == "empty" }
 		recovery.VerifObserver = func(event string, attempt int, d time.Duration) {
 			switch event {
 			case "attempt":
 				emit(&loaderEv{Op: "attempt", N: attempt, Tr: tr, Main: c.Main, Personal: c.Personal, MaxAtt: c.MaxAtt, Cap: c.CapUS})
 			case "delay":
+				if c.Heal >= 1 && attempt == c.Heal { // the environment repairs the file that failed
+					target, content := "commands.yml", mainYAML
+					if loads(c.Main) {
+						target, content = "personal.yml", personalYAML
+						effPers = "ok"
+					} else {
+						effMain = "ok"
+					}
+					os.RemoveAll(filepath.Join(c.Dir, target))
+					os.WriteFile(filepath.Join(c.Dir, target), []byte(content), 0o644)
+				}
 				us := int64(d / time.Microsecond)
 				if us > 2000000000 { // keep within the 32-bit integers of TLC (monotone clamp)
 					us = 2000000000
@@ -198,14 +219,19 @@ func loaderChild(args []string) int {
 					ev.Kind, ev.Note = "panic", fmt.Sprint(r)
 				}
 			}()
-			db, err := recovery.NewDatabaseRecovery(rc).LoadDatabaseWithFallback(filepath.Join(c.Dir, "commands.yml"), filepath.Join(c.Dir, "personal.yml"))
+			if !c.Reuse || dr == nil || rc != lastRC {
+				dr, lastRC = recovery.NewDatabaseRecovery(rc), rc
+			}
+			db, err := dr.LoadDatabaseWithFallback(filepath.Join(c.Dir, "commands.yml"), filepath.Join(c.Dir, "personal.yml"))
 			ev.Err = err != nil
 			if db == nil {
 				ev.Kind = "nil"
 				return
 			}
 			ev.NCmds = len(db.Commands)
-			ev.Kind = classifyDB(db, c)
+			ce := c
+			ce.Main, ce.Personal = effMain, effPers
+			ev.Kind = classifyDB(db, ce)
 			func() {
 				defer func() {
 					if r := recover(); r != nil {
